@@ -13,6 +13,10 @@ stimuli
     cok / cfail, cok2 / cfail2   the pending control connection attempt succeeds / fails
     own+ / own- / own!   the held TAKEOWNERSHIP is answered 250 / 5xx / the control connection drops instead
     rst+ / rst- / rst!   the same for the held RESETCONF __OwningControllerProcess
+    stl+ / stl-   (cases with "stall": k) the k-th command of the dialogue that follows the first SETEVENTS
+                  acknowledgement - TAKEOWNERSHIP, RESETCONF, the TorConfig bootstrap's SETEVENTS / GETINFO
+                  config/names / config/defaults / GETCONF ... / GETINFO onions/current - is held back until
+                  answered normally / rejected with 552, so that events can arrive at every position of it
     plo / p100    650 STATUS_CLIENT NOTICE BOOTSTRAP PROGRESS=<n> / =100 from FakeTor (on every live,
                   subscribed control connection - each connection is its own FakeTor instance)
     tmo   the virtual clock passes the launch timeout
@@ -96,6 +100,7 @@ FLOORS = {
               "temp_dir_checks_after_exit": 2500, "caller_dir_checks": 15000,
               "timeouts_before_bootstrap_judged": 1500, "shutdown_firings": 3500, "split_listener_cases": 400,
               "control_connections_retried": 80, "control_connections_dropped_mid_ownership": 600,
+              "dialogue_commands_stalled": 30, "late_observers_compared_with_first_outcome": 10000,
               "reach:txtorcon.controller:TorProcessProtocol._maybe_notify_connected": 6000,
               "reach:txtorcon.controller:TorProcessProtocol.when_connected": 25000,
               "reach:txtorcon.controller:TorProcessProtocol.processEnded": 3500,
@@ -144,9 +149,12 @@ GROUPS = [
     ("plo", ["plo"]), ("p100", ["p100"]), ("tmo", ["tmo"]),
     ("exit", ["exit0", "exit1", "sig"]),
     ("lst2", ["lst2"]), ("c2", ["cok2", "cfail2"]),
+    ("stl", ["stl+", "stl-"]),
 ]
 GROUP_OF = {a: g for g, al in GROUPS for a in al}
-ATOMS = [a for _, al in GROUPS for a in al]
+ATOMS = [a for g, al in GROUPS for a in al if g != "stl"]     # general alphabet (stl only in stall cases)
+STALL_ATOMS = ["p100", "plo", "stl+", "stl-", "tmo", "exit1", "out", "err", "sig"]
+STALL_POSITIONS = 11        # commands txtorcon sends after the first SETEVENTS acknowledgement (0..10)
 EXITS = ("exit0", "exit1", "sig")
 # the first control connection got past authentication and then failed while asking for ownership:
 # txtorcon may retry when the listener line shows up again
@@ -180,7 +188,7 @@ def allowed(prefix, atom):
         return "lst" in s
     if g == "c2":
         return retry_open
-    if g in ("plo", "p100"):
+    if g in ("plo", "p100", "stl"):
         return connected
     # the ownership commands are held on the first connection that gets as far as sending them
     on_conn = live1 if "cok" in s else "cok2" in s
@@ -235,6 +243,26 @@ def enumerate_retry_schedules(extra):
     return out
 
 
+def enumerate_stall_schedules(extra, atoms=None):
+    """lst, cok, then every causal order of up to `extra` stimuli among p100/plo, the release (stl+) or
+    rejection (stl-) of the held dialogue command, timeout, exit, stdout/stderr"""
+    atoms = atoms or STALL_ATOMS
+    out = []
+
+    def rec(prefix, left):
+        if len(prefix) > 2:
+            out.append(tuple(prefix))
+        if not left:
+            return
+        for a in atoms:
+            if allowed(prefix, a):
+                prefix.append(a)
+                rec(prefix, left - 1)
+                prefix.pop()
+    rec(["lst", "cok"], extra)
+    return out
+
+
 # configuration variants (rotated over the schedules, chosen by the seeded rnd)
 CTL = ["default-unix", "tcp", "unix-explicit"]
 CREATOR = ["reactor", "custom"]
@@ -261,6 +289,7 @@ def variant(rnd, dd, **fixed):
         "wc": rnd.random() < 0.85,
         "evt_order": rnd.choice(["old-first", "new-first"]),
         "split": None,
+        "stall": None,
     }
     v.update(fixed)
     return v
@@ -324,6 +353,9 @@ class GatedTor(FakeTor):
         FakeTor.__init__(self, **kw)
         self.hold = hold if isinstance(hold, set) else set(hold)   # a set object may be shared by connections
         self.held = None
+        self.held_is_stall = False
+        self.stall = None           # shared {"at": k|None}: hold the k-th command after the first SETEVENTS ack
+        self.post_sub = 0
         self._stash = b""
 
     def receive(self, data):
@@ -337,8 +369,19 @@ class GatedTor(FakeTor):
         if self.authenticated and self.held is None and w in self.hold:
             self.hold.discard(w)
             self.held = line
+            self.held_is_stall = False
             self._stash, self.inbox = self.inbox, b""
             return None
+        if self.authenticated and self.setevents_log and w != "QUIT":
+            idx = self.post_sub
+            self.post_sub += 1
+            if self.stall is not None and self.stall.get("at") == idx and self.held is None:
+                self.stall["at"] = None
+                self.stall["line"] = line
+                self.held = line
+                self.held_is_stall = True
+                self._stash, self.inbox = self.inbox, b""
+                return None
         return FakeTor.dispatch(self, line)
 
     def release(self, rep=None):
@@ -422,6 +465,7 @@ class Run(object):
         self.links = []             # one Link (with its own GatedTor) per control connection made, in order
         self.t100_link = None       # the connection over which the first complete PROGRESS=100 arrived
         self.tor_kw = None
+        self.stall = {"at": case.get("stall")}
         self.proc = None
         self.pp = None
         self.custom_attempts = []   # Deferreds handed out by the custom connection creator
@@ -588,6 +632,7 @@ class Run(object):
 
     def new_tor(self):
         tor = GatedTor(**self.tor_kw)
+        tor.stall = self.stall
         tor.info["config/names"] = list(CONF_NAMES)
         return tor
 
@@ -710,6 +755,19 @@ class Run(object):
                 tor.release((510, [("end", 'Unrecognized command "TAKEOWNERSHIP"')]))
             else:
                 tor.release((552, [("end", "Unrecognized option: Unknown option '__OwningControllerProcess'.  Failing.")]))
+        elif atom in ("stl+", "stl-"):
+            link = None
+            for l in self.live_links():
+                if l.tor.held is not None and l.tor.held_is_stall:
+                    link = l
+            if link is None or not live:
+                return False
+            self.rec.seen("stalled_commands", " ".join(link.tor.held.split(" ")[:2])[:40])
+            self.rec.count("dialogue_commands_stalled")
+            if atom == "stl+":
+                link.tor.release()
+            else:
+                link.tor.release((552, [("end", "Unrecognized key, option or event (rejected by the schedule)")]))
         elif atom in ("plo", "p100"):
             if not live:
                 return False
@@ -862,6 +920,28 @@ class Run(object):
                         self.V("when-connected-success-before-bootstrap-100", cls,
                                {"requested_at_step": o.req_step, "fired_at_step": o.step,
                                 "failed_due": o.req_after_failure, "snapshot": snap})
+                    elif snap["failed_due"]:
+                        # the launch had failed (exit / timeout came before any 100 %); a 100 % event that
+                        # arrived later does not change the one result every observer gets
+                        rec.count("late_observers_compared_with_first_outcome")
+                        self.V("when-connected-contradicts-launch-result",
+                               "launch-failed-by-%s/told-success/%s" % (
+                                   snap["failed_due"], "requested-after-late-100" if o.req_step >= snap["t100"]
+                                   else "requested-before-late-100"),
+                               {"requested_at_step": o.req_step, "fired_at_step": o.step, "snapshot": snap})
+                    else:
+                        rec.count("late_observers_compared_with_first_outcome")
+                elif snap["failed_due"] is None and snap["t100"] is not None:
+                    # 100 % came first: the connected-notification is a success, whatever happens to Tor later
+                    rec.count("late_observers_compared_with_first_outcome")
+                    after = ("exit" if snap["exited_at"] is not None else
+                             "timeout" if snap["timeout_elapsed_at"] is not None else "bootstrap")
+                    self.V("when-connected-contradicts-launch-result",
+                           "bootstrap-completed-first/told-failure/requested-after-%s" % after,
+                           {"requested_at_step": o.req_step, "fired_at_step": o.step, "snapshot": snap,
+                            "got": "%s: %s" % (type(o.value).__name__, PATHS.sub("<path>", str(o.value))[:80])})
+                elif snap["failed_due"]:
+                    rec.count("late_observers_compared_with_first_outcome")
         # (3) timeout: TERM while the launch was still under way, none once bootstrap had completed
         if atom == "tmo" and self.proc is not None:
             new = list(self.proc.signals[self.signals_before:])
@@ -983,6 +1063,16 @@ def shard_cases(spec):
                     continue
                 rnd = gen.rnd_for(spec["seed"], PROPERTY, "split", i, off)
                 yield variant(rnd, rnd.choice(["temp", "caller"]), sched=list(s), split=off, ctl="tcp")
+        # ... and the stalled-dialogue family: every position k of the post-subscription dialogue held
+        if "stall_extra" in spec:
+            j = 0
+            for i, s in enumerate(enumerate_stall_schedules(spec["stall_extra"], spec.get("stall_atoms"))):
+                for kpos in range(STALL_POSITIONS):
+                    j += 1
+                    if j % n != k:
+                        continue
+                    rnd = gen.rnd_for(spec["seed"], PROPERTY, "stall", i, kpos)
+                    yield variant(rnd, rnd.choice(["temp", "caller"]), sched=list(s), stall=kpos)
         # the same shards also carry the schedules through a retried control connection
         for i, s in enumerate(enumerate_retry_schedules(spec.get("retry_extra", 0)) if "retry_extra" in spec else ()):
             if i % n != k:
@@ -1014,6 +1104,10 @@ def run_shard(spec, rec):
             rec.enumerated("listener output split at %s x all causal permutations of length %d..%d containing lst" % (
                 "every offset 1..%d" % max(offs) if offs == list(range(1, max(offs) + 1))
                 else "offsets %s" % ",".join(str(o) for o in offs), spec.get("minlen", 1), spec["maxlen"]))
+            if "stall_extra" in spec:
+                rec.enumerated("each of the %d commands after the first SETEVENTS acknowledgement held back x all "
+                               "causal orders of <= %d stimuli among %s after lst, cok" % (
+                                   STALL_POSITIONS, spec["stall_extra"], ",".join(spec.get("stall_atoms") or STALL_ATOMS)))
             if "retry_extra" in spec:
                 rec.enumerated("retried control connection (refused / 5xx / dropped at TAKEOWNERSHIP or RESETCONF, then "
                                "lst2 + cok2) followed by all causal continuations of <= %d stimuli" % spec["retry_extra"])
@@ -1040,7 +1134,8 @@ def plan(tier, seed):
         for k in range(14):
             specs.append({"mode": "perm", "maxlen": 6, "k": k, "of": 14})
         for k in range(2):
-            specs.append({"mode": "split", "maxlen": 4, "offsets": QUICK_OFFSETS, "k": k, "of": 2, "retry_extra": 2})
+            specs.append({"mode": "split", "maxlen": 4, "offsets": QUICK_OFFSETS, "k": k, "of": 2, "retry_extra": 2,
+                          "stall_extra": 2, "stall_atoms": ["p100", "stl+", "stl-", "tmo", "exit1", "plo"]})
     else:
         for k in range(32):
             specs.append({"mode": "perm", "maxlen": 7, "k": k, "of": 32, "timeout_s": 3000})
@@ -1051,5 +1146,5 @@ def plan(tier, seed):
                           "k": k, "of": 12, "timeout_s": 3000})
         for k in range(4):
             specs.append({"mode": "split", "maxlen": 5, "minlen": 5, "offsets": BOUNDARY_OFFSETS, "k": k, "of": 4,
-                          "retry_extra": 3, "timeout_s": 3000})
+                          "retry_extra": 3, "stall_extra": 3, "timeout_s": 3000})
     return specs
